@@ -31,13 +31,13 @@ META = {
     "bounds": {"quick": "E2: |VALUE| <= 8, read name <= 10 chars; E1: 2 optional-field slots from a menu of 9 (+cg/no-cg, repeated tag) per emitter",
                "thorough": "E2: |VALUE| <= 12; E1: 3 slots"},
     "out": ["values longer than the bound (the scanner patterns are star-free in the value, so length adds no behaviour, but this is "
-            "not proved)", "non-ASCII", "read names containing blanks (documented cut)", "mandatory numeric columns with leading zeros"],
+            "not proved)", "non-ASCII", "read names containing blanks (documented cut)", "mandatory numeric columns with leading zeros", "white space at the very end of the line (the last column is right-stripped by the reader)"],
     "assumptions": ["E2 models the scanner's control flow by one of two skeletons detected in the AST (three findall calls guarded by "
                     "re.match, or one re.match with two groups); any other shape is reported inconclusive",
                     "stub aligner for the realign emitter"],
 }
 
-MENU = ["tp:A:S", "NM:i:-3", "dv:f:-1.5e-3", "zd:Z:a b_#.-:*/", "ba:B:i,1,-2", "ch:A:*", "hx:H:1AE3", "id:f:.5", "s1:i:12"]
+MENU = ["tp:A:S", "ws:Z:trailing ", "NM:i:-3", "dv:f:-1.5e-3", "zd:Z:a b_#.-:*/", "ba:B:i,1,-2", "ch:A:*", "hx:H:1AE3", "id:f:.5", "s1:i:12"]
 TYPES = "AifZHB"
 
 
@@ -296,6 +296,10 @@ def emit(emitter, opt):
 def expected_fields(emitter, opt):
     """input optional fields in order; ds dropped; cg value may change; realign may add cg at the end"""
     want = [x for x in opt if not x.startswith("ds:Z:")]
+    if opt and want and want[-1] == opt[-1]:
+        # the reader strips white space at the end of the LINE, so a trailing blank of the last column is not part of the
+        # record as gaftools sees it (stated outside the claim); inside the line it must survive
+        want[-1] = want[-1].rstrip()
     return want
 
 
